@@ -416,10 +416,12 @@ func init() {
 			NonTrivial: func(x *drv.World) bool { return x.M.Res != [4]int64{} },
 		}
 		chk := &Check{ID: "C18", Scenarios: []*engine.Scenario{sc},
-			Rule: fmt.Sprintf("registry: for n in {0,1,2,62,63,64,65,127,128,191,192,254,255,256} (<= %d in this build) x 3 registration orders (ascending, other types, interleaved with resource registration and entity creation): IDs stable and injective; ComponentIDs/ComponentInfo/TypeID agree; registration on a locked world panics and consumes no ID; registration max+1 panics; every boundary ID (at n=max: every single ID), boundary pairs, 4- and 8-ID sets across all mask words are used in entities (values written and read back), exclusive filters, filters with exclusions and queries; the same sweep is run in a binary built with -tags ark_tiny (max 64). resources: all Add/Remove/Reset histories over 3 resource types up to depth %d against a map, with rejected duplicate Add / absent Remove at every node; non-trivial = >=1 resource present", MaxComps, d),
+			Rule: fmt.Sprintf("registry: for n in {0,1,2,62,63,64,65,127,128,191,192,254,255,256} (<= %d in this build) x 3 registration orders (ascending, other types, interleaved with resource registration and entity creation): IDs stable and injective; ComponentIDs/ComponentInfo/TypeID agree; registration on a locked world panics and consumes no ID; registration max+1 panics; every boundary ID (at n=max: every single ID), boundary pairs, 4- and 8-ID sets across all mask words are used in entities (values written and read back), exclusive filters, filters with exclusions and queries; resource registry: for n in {0,1,2,63,64,65,127,128,129,192,255,256} x 2 orders the same for resource types, then Add/Has/Get/Remove as a map on every boundary resource ID (at n=max: on every ID) with rejected duplicate Add / absent Remove, 257th resource type rejected; generic entry points (ResourceID[T], ComponentID[T], NewResource[T], C[T]) agree with the reflect.Type based ones for struct, pointer, function, slice and 5 interface types, interface-typed resources/components are independent entries; the same sweeps are run in a binary built with -tags ark_tiny (max 64). resources: all Add/Remove/Reset histories over 3 resource types up to depth %d against a map, with rejected duplicate Add / absent Remove at every node; non-trivial = >=1 resource present", MaxComps, d),
 		}
 		chk.Special = func(tier Tier, rep *engine.Report) error {
 			cases, steps, found := RegistrySweep()
+			c2, s2, f2 := ResourceSweep()
+			cases, steps, found = cases+c2, steps+s2, append(found, f2...)
 			rep.Histories += int64(cases)
 			rep.Transitions += int64(steps)
 			rep.States += int64(cases)
